@@ -136,19 +136,30 @@ def run(ctx, rep):
             n = callee_name(t)
             if psc.is_index_call(n):
                 info['access'] = 'elements'
-            elif n.endswith('Iterator::nth'):
+            elif n.endswith(('Iterator::nth', 'Iterator>::nth')):
                 a = str(sym(fn, t['args'][0]))
                 info['access'] = 'characters' if ('chars' in a or 'char_indices' in a) else 'bytes?'
+        info['lookup'] = _lookup_mode(F, fn) if name.endswith('string') and info['shift'] is None else None
         if name.endswith('string'):
             BYTE_OPS = ('::as_bytes', 'str>::bytes', '::bytes', 'core::str::<impl str>::len', 'alloc::string::String::len', '::is_char_boundary',
                         '::split_at', '::get_unchecked', 'core::str::<impl str>::get', '::as_ptr', '::from_utf8')
             fam = [fn] + [g for g in F.all_fns if g.path.startswith(name + '::{closure')]
-            byte_calls = sorted({callee_name(t) for g in fam for b, t in g.calls() if any(callee_name(t).endswith(x) or x in callee_name(t) for x in BYTE_OPS)
-                                 or (psc.is_index_call(callee_name(t)) and 'str' in str(t['callee'].get('generic_args', '')) )})
+            byte_calls = sorted({callee_name(t) for g in fam for b, t in g.calls() if (any(callee_name(t).endswith(x) or x in callee_name(t) for x in BYTE_OPS)
+                                 or (psc.is_index_call(callee_name(t)) and 'str' in str(t['callee'].get('generic_args', '')) ))
+                                 # what a debug assertion evaluates for its condition reads the text, it does not index it
+                                 and not (callee_name(t).endswith('::is_char_boundary') and c05.feeds_only_debug_assertions(ctx, g, t['dest']['local']))})
             rep.ob(not byte_calls, 'R13.2', name, 'no byte-level access', 'strings are indexed by character: byte-level operations on the text: %s' % byte_calls, fn.loc())
         routines[name] = info
         string = name.endswith('string')
         want = 'characters' if string else 'elements'
+        if info.get('lookup'):
+            # the other way to say the same: no arithmetic on the index at all - the n-th character is looked up from the front for
+            # an index >= 0 and from the back for a negative one, and `not found` is the index error
+            okl, whyl = info['lookup']
+            rep.ob(okl and info['access'] == want, 'R13.2', name, 'units', 'the position is found by counting characters from the front (index >= 0) or from the back (index < 0): %s' % whyl, fn.loc())
+            rep.ob(okl, 'R13.2', name, 'shift only when negative', 'the text is walked from the back only under `index < 0`, from the front only under `index >= 0`', fn.loc())
+            rep.ob(okl, 'R13.2', name, 'bound test', 'out of range is exactly `the walk ends before the position is reached`: the None of nth() leads to the index error', fn.loc())
+            continue
         consistent = info['shift'] == info['bound'] == info['access'] == want
         rep.ob(consistent, 'R13.2', name, 'units', 'negative shift counts %s, the bound test counts %s, the access counts %s; all three must be %s'
                % (info['shift'], info['bound'], info['access'], want), fn.loc())
@@ -163,6 +174,9 @@ def run(ctx, rep):
     # making it unsigned (abs, unsigned_abs, a mask) folds positions below -count back into range
     for name, info in routines.items():
         fn = info['fn']
+        if info.get('lookup') and info['lookup'][0]:
+            rep.good('R13.2', name, 'still-negative position rejected', 'the index is never made unsigned by arithmetic: a position before the first character is the end of the backward walk', fn.loc())
+            continue
         conv = []
         for b_, t_ in fn.calls():
             n_ = callee_name(t_)
@@ -309,6 +323,66 @@ def borrows_object_payload(v, depth=0):
         if v[1] in ('object::Object::as_str', 'object::Object::as_vec', 'object::Object::as_str_unchecked', 'object::Object::as_vec_unchecked'):
             return True
     return any(borrows_object_payload(x, depth + 1) for x in v if isinstance(x, tuple))
+
+
+def _lookup_mode(F, fn):
+    """(ok, why) when the routine finds its position by nth() on the characters of the text: one lookup from the front with
+    `index as usize` under index >= 0, one from the back (`.rev()`) with `|index| - 1` under index < 0, and a path on which the
+    lookup found nothing returns an IndexError; None when the routine does not use nth() at all"""
+    nths = [(b, t) for b, t in fn.calls() if callee_name(t).endswith(('Iterator::nth', 'Iterator>::nth'))]
+    if not nths:
+        return None
+    idx = None
+    for i in range(1, fn.arg_count + 1):
+        if fn.local_ty(i) in ('isize', 'i64'):
+            idx = ('param', i)
+    if idx is None:
+        return False, 'no signed index parameter'
+    seen = {'front': False, 'back': False}
+    for b, t in nths:
+        it = str(sym(fn, t['args'][0]))
+        if 'chars' not in it and 'char_indices' not in it:
+            return False, 'nth() on something that is not the characters of the text'
+        back = '::rev' in it
+        k = strip(sym(fn, t['args'][1]))
+        facts = psc.facts_at(fn, b)
+        neg = any(f[0] == 'Lt' and strip(f[1]) == idx and strip(f[2]) == ('int', 0) for f in facts)
+        nonneg = any(f[0] == 'Ge' and strip(f[1]) == idx and strip(f[2]) == ('int', 0) for f in facts)
+        if not back:
+            if not (nonneg and k == idx):
+                return False, 'the forward lookup must take `index as usize` under index >= 0 (got %s, guard %s)' % (show_s(k), nonneg)
+            seen['front'] = True
+        else:
+            kk = k
+            if kk[0] == 'field' and kk[2] == '0' and kk[1][0] == 'binop' and kk[1][1].endswith('WithOverflow'):
+                kk = ('binop', kk[1][1][:-12], kk[1][2], kk[1][3])
+            if kk[0] == 'checked':
+                kk = ('binop', kk[1], kk[2], kk[3])
+            okk = kk[0] == 'binop' and kk[1] == 'Sub' and strip(kk[3]) == ('int', 1) and strip(kk[2])[0] == 'call' and \
+                strip(kk[2])[1].endswith(('::unsigned_abs', '::abs', '::wrapping_abs')) and strip(strip(kk[2])[2][0]) == idx
+            if not (neg and okk):
+                return False, 'the backward lookup must take `|index| - 1` under index < 0 (got %s, guard %s)' % (show_s(k), neg)
+            seen['back'] = True
+    if not (seen['front'] and seen['back']):
+        return False, 'lookups found: %s' % seen
+    # nothing found -> IndexError
+    err_on_none = False
+    for p in AbsInt(F, fn, max_paths=5000).run():
+        r = simp(p.env.get('_0'))
+        if p.exit == 'return' and r and r[0] == 'agg' and r[2] == 'Err' and 'IndexError' in str(r):
+            for c in p.constraints:
+                if c[0][0] == 'variant' and 'Option' in str(c[0][2]) and c[1] == 'None':
+                    err_on_none = True
+    if not err_on_none:
+        return False, 'no path turns `not found` into an IndexError'
+    return True, 'front: nth(index) under index >= 0; back: rev().nth(|index| - 1) under index < 0; None -> IndexError'
+
+
+def show_s(v):
+    try:
+        return show(v)[:60]
+    except Exception:
+        return str(v)[:60]
 
 
 def payload_views(f, reads):
